@@ -31,6 +31,7 @@ fn main() {
             "C13" => c13::replay(&v["case"]),
             "C14" => c14::replay(&v["case"]),
             "C15" => c15::replay(&v["case"]),
+            "C17" => c17::replay(&v["case"]),
             "C19" => c19::replay(&v["case"]),
             _ => machinery_error(&format!("no replay for property {id}")),
         };
@@ -67,6 +68,7 @@ fn main() {
         "C13" => c13::run(tier),
         "C14" => c14::run(tier),
         "C15" => c15::run(tier),
+        "C17" => c17::run(tier),
         "C18" => c18::run(tier),
         "C19" => c19::run(tier),
         other => machinery_error(&format!("unknown property {other}")),
